@@ -54,6 +54,7 @@ def cset(xs):
 def behaviour_to_schedule(beh, seed):
     sched = {"mid0": (seed * 131) & 0xFFFF, "tok0": (seed * 17) & 0xFFFF, "code": 2, "N": 0, "C": 0,
              "reps": [{"len": 0, "etag": True}, {"len": 0, "etag": True}], "s1": [], "s2": [], "ack": [], "ackcode": 68,
+             "query": ["v=%d" % (seed % 3)] if seed % 4 else None, "accept": 60 if seed % 3 == 0 else None,
              "net": {}, "fault": None,
              "dedup": True, "con": True}
     expected = []
@@ -155,12 +156,14 @@ def random_schedule(rng, i):
     if rng.random() < 0.45:
         for _ in range(rng.choice([1, 1, 1, 2, 3])):
             net[str(rng.choice([1, 1, 2, 2, 3, 4, rng.randint(1, 14)]))] = rng.choice(["dropreq", "dropresp", "dupresp", "dupreq"])
-    etag = True if (fault and fault["kind"] == "etag") else rng.random() < 0.8
+    # ETag of representation 1 / 2: independent (ETag/ETag, none/ETag, ETag/none, none/none)
+    etag = rng.random() < 0.75
     return {
         "mid0": rng.randint(0, 65535), "tok0": rng.randint(0, 65535),
         "code": rng.choice([2, 3, 5, 1 if N == 0 else 2]),
         "N": N, "C": C,
-        "reps": [{"len": M, "etag": etag}, {"len": M + rng.choice([0, 0, 1, 16, 1000]), "etag": True}],
+        "reps": [{"len": M, "etag": etag}, {"len": M + rng.choice([0, 0, 1, 16, 1000]), "etag": rng.random() < 0.65}],
+        "query": rng.choice([None, ["v=2"], ["v=2"], ["a=1", "b=2"]]), "accept": rng.choice([None, None, 0, 60]),
         "s1": s1, "s2": s2, "net": net, "fault": fault,
         "ack": ack_style(rng), "ackcode": rng.choice([68, 68, 65]),
         "dedup": rng.random() < 0.7,
@@ -173,11 +176,15 @@ def matrix_schedules(rng):
     at small, medium and the largest block size: the faulted response is the first, a middle or the final one."""
     out = []
     # length faults: once and repeated; oversize: one byte too many and two whole blocks
-    variants = {k: [(False, "one")] for k in FAULTS}
-    variants.update(b2short=[(False, "one"), (True, "one")], b2empty=[(False, "one"), (True, "one")],
-                    b2over=[(False, "one"), (True, "one"), (False, "double"), (True, "double")])
-    for kind, repeat, over, nth, blocks, szx in [(k, r, o, n, b, z) for k in FAULTS for (r, o) in variants[k]
-                                                 for n in (0, 1, 2) for b in (2, 3, 5) for z in (0, 3, 6)]:
+    # ETag change: every combination of representation 1 / 2 with and without ETag
+    variants = {k: [(False, "one", None)] for k in FAULTS}
+    variants.update(b2short=[(False, "one", None), (True, "one", None)], b2empty=[(False, "one", None), (True, "one", None)],
+                    b2over=[(False, "one", None), (True, "one", None), (False, "double", None), (True, "double", None)],
+                    etag=[(False, "one", (True, True)), (False, "one", (False, True)), (False, "one", (True, False)),
+                          (False, "one", (False, False))])
+    for kind, repeat, over, ets, nth, blocks, szx in [(k, r, o, e, n, b, z) for k in FAULTS for (r, o, e) in variants[k]
+                                                      for n in (0, 1, 2) for b in (2, 3, 5) for z in (0, 3, 6)]:
+        ets = ets or (rng.random() < 0.8, True)
         if True:
             if True:
                 if True:
@@ -192,7 +199,8 @@ def matrix_schedules(rng):
                     out.append({
                         "mid0": rng.randint(0, 65535), "tok0": rng.randint(0, 65535), "code": rng.choice([2, 3, 5]),
                         "N": N, "C": szx if rng.random() < 0.7 else rng.randint(szx, 6),
-                        "reps": [{"len": M, "etag": True}, {"len": M + rng.choice([0, 1, size]), "etag": True}],
+                        "reps": [{"len": M, "etag": ets[0]}, {"len": M + rng.choice([0, 1, size]), "etag": ets[1]}],
+                        "query": rng.choice([["v=2"], ["v=2"], ["a=1", "b=2"], None]), "accept": rng.choice([None, 60]),
                         "s1": [szx] if rng.random() < 0.7 else [szx, max(0, szx - 1)],
                         "s2": [szx] if rng.random() < 0.7 else [szx, max(0, szx - 1)],
                         "net": net, "fault": {"kind": kind, "nth": nth, "short": rng.choice([1, size // 2, size - 1]),
@@ -208,7 +216,8 @@ def matrix_schedules(rng):
                 N = max(blocks * size - rng.choice([0, 1, size - 1]), 1125 if szx == 6 else 0)
                 out.append({
                     "mid0": rng.randint(0, 65535), "tok0": rng.randint(0, 65535), "code": rng.choice([2, 3]),
-                    "N": N, "C": szx, "reps": [{"len": rng.choice([0, 5, size + 1]), "etag": True}],
+                    "N": N, "C": szx, "reps": [{"len": rng.choice([0, 5, size + 1, 3 * size]), "etag": rng.random() < 0.7}],
+                    "query": ["v=2"], "accept": rng.choice([None, 0]),
                     "s1": [szx] if rng.random() < 0.6 else [szx, max(0, szx - 1)], "s2": [szx],
                     "net": {}, "fault": None, "ack": ack, "ackcode": rng.choice([68, 65]), "dedup": True, "con": True,
                 })
